@@ -698,6 +698,20 @@ pub fn run(tier: Tier) -> i32 {
             }
         }
     }
+    {
+        let sp: Vec<(Vec<String>, Vec<u8>)> = cases
+            .iter()
+            .filter(|c| c.shape.len() <= 4 && c.shape.len() >= 2)
+            .map(|c| {
+                let mut a: Vec<String> = vec!["view".into()];
+                a.extend(c.extra.iter().filter(|e| e.starts_with("-v") || e.starts_with("-q")).map(|e| e.to_string()));
+                a.extend([c.flag.to_string(), join_usizes(&c.list, ",")]);
+                a.extend(c.extra.iter().filter(|e| !(e.starts_with("-v") || e.starts_with("-q"))).map(|e| e.to_string()));
+                (a, text_of(&bit_labels(&c.shape)).into_bytes())
+            })
+            .collect();
+        super::spelling_part(&mut rep, "C04", "every -m / -M list of the shapes with 2..4 axes, valid and invalid", &sp, &scratch);
+    }
     let res = par_map(cases.len(), |i| eval_cli(&cases[i], &scratch));
     let mut nt = 0;
     for (v, n) in res {
